@@ -47,7 +47,7 @@ def _effective_change(inp, tag, members, pool=POOL):
     return cands[inp.choice(tag, len(cands))]
 
 
-@obligation('M1', props=('C10',), quick=[dict(n=3)], thorough=[dict(n=3), dict(n=4)], stubs=_STUBS,
+@obligation('M1', props=('C10', 'C04'), quick=[dict(n=3)], thorough=[dict(n=3), dict(n=4)], stubs=_STUBS,
             bounds='leader of a 3-node cluster, n<=4 log entries with the own-term no-op at any position, at most one earlier membership entry at any position (pending or applied), any applied/commit index; request: add member/non-member, remove member/non-member/self')
 def M1(inp, n):
     """leader-side gate: a membership command is appended only if the leader has applied its own-term no-op and no earlier
